@@ -110,9 +110,13 @@ def finish(res, checker_cmd):
             print('%s' % v['text'])
             print('VIOLATION property=%s replay=%s' % (res.pid, path))
     wall = time.time() - res.t0
+    n_listed = sum(len(v) for v in listed.values())
     cov = {
-        'obligations': res.obligations,
-        'discharged': res.discharged + sum(len(v) for v in listed.values()) * 0,
+        # obligations that this run set out to discharge; sites excused by KNOWN_FINDINGS.txt are counted
+        # separately (known_finding_obligations) - there the property is known NOT to hold
+        'obligations': res.obligations - n_listed,
+        'discharged': res.discharged,
+        'known_finding_obligations': n_listed,
         'checker_cmd': checker_cmd,
         'trusted_base': res.trusted or ['clang-14 front end (IR generation)', 'llvm-link-14',
                                         'verif/irparse.py', 'verif/bpa.py + verif/bits.py (self-tested on fixtures)',
